@@ -22,7 +22,7 @@ MODELLED = ("plumbing/transport/receive_pack.go (with the three fix commits): Re
             "context cancellation; concurrency of two pushes (every update is one storer call: C16)")
 TRUSTED = [
     "C-impl: transport.ReceivePack driven by harness/cmd/c39 (wire-format request built by the harness, packs by packfile.Encoder) over memory / memfs / osfs stores vs Model/ReceivePack.c39_run",
-    "C-git: the consistency rule (old value current and new object present) vs `git receive-pack --stateless-rpc` (git 2.39.5) on generated pushes to real repositories, 40 per quick run",
+    "C-git: the consistency rule (old value current and new object present) vs `git receive-pack --stateless-rpc` (git 2.39.5) on generated pushes to real repositories, 15 per quick run, 120 per thorough run",
     "oracle (python, props/C39.py): replays the reported per-command outcomes on the initial references and checks old-value agreement, presence of the new object, one status per command and the final references",
 ]
 ASSUMPTIONS = ["the storer behaves like the abstract store on Reference / SetReference / CheckAndSetReference / RemoveReference / HasEncodedObject (C17)",
@@ -61,7 +61,7 @@ class Main(Suite):
     name = "main"
     go_cmd = "c39"
     coq_imports = "From GoGit Require Import Spec.AStore Model.ReceivePack."
-    quick_n = 400
+    quick_n = 300
     thorough_n = 2500
     coq_chunk = 250
 
@@ -351,7 +351,7 @@ class Main(Suite):
                 acts["invalid" if o < 0 and n < 0 else "create" if o < 0 else "delete" if n < 0 else "update"] += 1
         ev = {"commands_by_action": acts}
         try:
-            ran, mism = self.cgit(ctx, 40 if ctx.tier == "quick" else 300)
+            ran, mism = self.cgit(ctx, 15 if ctx.tier == "quick" else 120)
             ev.update({"rule_vs_git_receive_pack_cases": ran, "spec_mismatches": mism})
         except Exception as e:
             ctx.notes.append("C-git suite could not run: %r" % (e,))
